@@ -33,7 +33,9 @@ RULE = ("seeded generator over classes {reorder (G = F permuted), near (G = F + 
         "the untranslated value), tinymove (one point of a multi-point diagram moved by 1e-6..4e-5), chain (F, F+d, "
         "F+2d: tight triangle), smallscale (coordinates ~1e-4), bigsigma (sigma 1e2..1e6), intsigma (sigma passed as "
         "Python int / np.int64, compared with the float call), sweep (history in one process: the same diagrams at "
-        "sigma 0.1, 0.4, 1, 3, 0.4, 0.1 in sequence, every value against the formula, heat(F,F)=0 each time)} x "
+        "sigma 0.1, 0.4, 1, 3, 0.4, 0.1 in sequence, every value against the formula, heat(F,F)=0 each time), wide "
+        "(births spread over 50-500 units at sigma 0.4 or 4-12 units at sigma 1e-3..1e-2, near and far points mixed), "
+        "multi (bit-identical shared points with different multiplicities)} x "
         "sigma in {0.01, 0.4, 5, random}; 1-5 points per diagram; every case also carries a third diagram, a shift, "
         "a permutation and diagonal points for the metamorphic relations. Non-trivial: both diagrams non-empty with "
         "at least one off-diagonal point each and (>= 2 points in one of them or a reordering/near-equality class); "
@@ -142,7 +144,38 @@ def _case(rng, cls):
         F, G, H = ([[b + T, d + T] for b, d in X] for X in (F, G, H))
         shift = -T
     skind, pre = "float", []
-    if cls == "intsigma":
+    if cls == "wide":
+        # births spread over many kernel widths (sqrt(746*8*sigma) = 48.9 at sigma 0.4, 2.44 at 1e-3): pixel-scale
+        # data at the default sigma, unit-scale data at small sigma; near and far points mixed, unsorted
+        if rng.random() < 0.55:
+            sigma, span = 0.4, rng.choice([60.0, 120.0, 250.0, 500.0])
+        else:
+            sigma, span = rng.choice([1e-3, 2e-3, 1e-2]), rng.choice([4.0, 8.0, 12.0])
+        w = math.sqrt(8 * sigma)
+
+        def wpt(c0):
+            b = c0 + rng.uniform(-1.5, 1.5) * w
+            return [b, b + rng.uniform(0.3, 2.5) * w]
+        cs = [rng.uniform(0, span) for _ in range(rng.randint(2, 3))] + [0.0, span]
+        F = [wpt(rng.choice(cs)) for _ in range(rng.randint(2, 5))]
+        G = [wpt(rng.choice(cs)) for _ in range(rng.randint(2, 5))]
+        G[rng.randrange(len(G))] = wpt(F[0][0])            # a near pair ...
+        G.insert(rng.randrange(len(G)), wpt(max(p[0] for p in F) - span))   # ... and a point far to the left
+        H = [wpt(rng.choice(cs)) for _ in range(rng.randint(1, 4))]
+        perm = list(range(len(F)))[::-1]
+    elif cls == "multi":
+        # bit-identical shared points with DIFFERENT multiplicities ({a,a} vs {a} is not 0)
+        a = _pt(rng, neg=neg)
+        k1, k2 = rng.choice([(2, 1), (1, 2), (3, 1), (2, 3), (2, 0), (3, 2)])
+        F = [list(a) for _ in range(k1)] + (_dgm(rng, rng.randint(1, 2), neg=neg) if rng.random() < 0.4 else [])
+        G = [list(a) for _ in range(k2)] + (_dgm(rng, 1, neg=neg) if k2 == 0 or rng.random() < 0.3 else [])
+        if rng.random() < 0.4:
+            q = _pt(rng, neg=neg)
+            F.append(list(q)); G.append(list(q))
+        rng.shuffle(F); rng.shuffle(G)
+        H = [list(a)] + (_dgm(rng, 1, neg=neg) if rng.random() < 0.5 else [])     # triangle through {a}
+        perm = list(range(len(F)))[::-1]
+    elif cls == "intsigma":
         # sigma handed over as a Python int / numpy integer: heat(F, G, 1) must equal heat(F, G, 1.0)
         sigma = float(rng.choice([1, 1, 2, 3, 5]))
         skind = rng.choice(["int", "npint"])
@@ -163,11 +196,11 @@ def _case(rng, cls):
 
 
 CLASSES = ["reorder", "near", "diag", "neg", "generic", "scale", "empty", "single",
-           "far", "far", "tinymove", "chain", "smallscale", "bigsigma", "reorder", "far", "intsigma", "sweep"]
+           "far", "far", "tinymove", "chain", "smallscale", "bigsigma", "reorder", "far", "intsigma", "sweep", "wide", "wide", "multi", "multi"]
 
 
 def generate(rng, tier):
-    n_cases = 36 if tier == "quick" else 810
+    n_cases = 44 if tier == "quick" else 880
     cases = [_case(rng, CLASSES[i % len(CLASSES)]) for i in range(n_cases)]
     # every sigma of the design with a reordering
     for s in SIGMAS:
